@@ -199,6 +199,20 @@ var props = map[string]propCfg{
 		},
 		MinNontriv: 300,
 	},
+	"C06": {
+		Quick:    tierCfg{Shards: 8, Checks: 250, Timeout: 4 * time.Minute},
+		Thorough: tierCfg{Shards: 16, Checks: 5000, Timeout: 40 * time.Minute},
+		Rule: "1-3 changes (a pattern mined from real code with metavariables / elisions / '+import' lines; the same with a package or import guard line that no file satisfies: context / '-' / named / dot import of a unique path or name, 'package' of a unique name; hand-written changes around a callee name that occurs nowhere else), two thirds with a description, in 1-2 patch files or on stdin; 1-5 Go files (unrelated real files, the file a change was mined from - in which its code pattern occurs -, files with a generated-code header), three quarters of them deformed so that gofmt / the import sorter / a line-ending normaliser would alter them (CRLF on all or some lines, no final newline, extra final newlines, trailing blanks, space indentation, over-indentation, tight operators, semicolons, doubled blank lines, odd comments, legacy '// +build' lines, unsorted and duplicated imports, one-line import groups); drawn file / directory / '...' arguments in relative, absolute and mixed spellings with duplicates; drawn -v, --skip-generated, --skip-import-processing. " +
+			"'No change applies to the file' is decided without gopatch, per change: reference matcher finds no site, no inadmissible match, no ambiguity (mined); the callee name is absent from the file (hand-written); the guard cannot hold (guarded; the pattern may be present). Only files for which every change is so decided are judged; matching files stay in the run. " +
+			"Each case is run in the default mode, with --diff and with --print-only on an identically re-created tree with old mtimes, and through patch.Parse/Apply. Oracle per judged file: bytes, mode, mtime and inode unchanged in every mode; no 'path:description' line, no error, no '---/+++' header for it; --print-only stdout contains its original bytes; Apply returns the input bytes and no error. When nothing applies to any file of the run: exit 0, stderr empty, no entry created, stdout empty (default, --diff; only log lines with -v) or exactly the original bytes in path order (--print-only; plus '<path>: skipped' lines with -v; nothing for a skipped generated file). " +
+			"Non-trivial = a judged file that gofmt would change, or one in which the pattern occurs and only the guard fails; distinct by sha256(case).",
+		Assumptions: []string{
+			"a file with a node that matches the pattern but whose replacement does not fit its slot is left unjudged (whether 'a change applies' there is not decided by the statement)",
+			"the package / import guard table of property C10 is used only in its trivially false corner: a path, import name or package name that occurs in no file",
+			"a crash or time-out of a run is property C08's business: the case is not judged",
+		},
+		MinNontriv: 60,
+	},
 	"C12": {
 		Quick:    tierCfg{Shards: 8, Checks: 250, Timeout: 4 * time.Minute},
 		Thorough: tierCfg{Shards: 16, Checks: 4000, Timeout: 40 * time.Minute},
